@@ -72,12 +72,17 @@ def seek_target(rng, cur, keys):
     return None
 
 
-def index_level(rng, typ, shards, ncalls):
+def index_level(rng, typ, shards, ncalls, nkeys=None):
     """ops for one index + expected outputs from the abstract cursor"""
     ops = ["ix.new %d %d" % (typ, shards)]
     exp = [None]
     m = {}
-    keys = key_set(rng, rng.choice([0, 1, 5, 12, 40]))
+    if nkeys:
+        # a LARGE key set (hundreds of keys in one shard): cursors that fetch their items in batches must not stop early
+        keys = sorted(set(bytes([rng.randrange(97, 123) for _ in range(3)]) for _ in range(nkeys)))
+        rng.shuffle(keys)
+    else:
+        keys = key_set(rng, rng.choice([0, 1, 5, 12, 40]))
     n = 0
     for k in keys:
         n += 1
@@ -142,6 +147,30 @@ def index_level(rng, typ, shards, ncalls):
                 exp.append("old=%s" % (m.pop(k) if k in m else "nil"))
             continue
         exp.append(c.state(str))
+    if nkeys:
+        # a full walk from the start and one from a Seek target in the middle
+        c = curs["a"]
+        ops.append("ixit.rewind a")
+        c.i = 0
+        exp.append(c.state(str))
+        for _ in range(len(c.a) + 1):
+            ops.append("ixit.next a")
+            if c.i < len(c.a):
+                c.i += 1
+            exp.append(c.state(str))
+        c = curs["b"]
+        ops.append("ixit.rewind b")
+        c.i = 0
+        exp.append(c.state(str))
+        k = keys[len(keys) // 2]
+        ops.append("ixit.seek b %s" % k.hex())
+        c.seek(k)
+        exp.append(c.state(str))
+        for _ in range(len(c.a) + 1):
+            ops.append("ixit.next b")
+            if c.i < len(c.a):
+                c.i += 1
+            exp.append(c.state(str))
     return ops, exp
 
 
